@@ -34,7 +34,10 @@ def instantiate(
             f"Too many inputs: got {len(inputs)}, "
             f"but graph has {len(formal_inputs)} parameters."
         )
-    value_map: dict[ir.Value, ir.Value | None] = dict(zip(formal_inputs, inputs))
+    # A trailing input that is not supplied is an omitted (optional) input, like an explicit None:
+    # left unbound, its formal parameter would be read as an outer-scope value that nothing defines.
+    value_map: dict[ir.Value, ir.Value | None] = dict.fromkeys(formal_inputs)
+    value_map.update(zip(formal_inputs, inputs))
 
     def rename(node: ir.Node) -> None:
         if prefix:
